@@ -245,6 +245,20 @@ CLAIMED['C20'] = dict(
          'equality check (the property itself is still checked on them)',
     technique='TLA+ spec (Plots.tla) model-checked with TLC; spec->code replay through the plotly figure objects',
     design='6/C20')
+CLAIMED['C19'] = dict(
+    engine='Purity',
+    text='Purity.tla builds on MechModel: the user owns one model, every object built from it owns a copy, an evaluation is a '
+         'short run of public calls on the owned model that flips the hidden sensitivity switch and rebuilds the solver. TLC '
+         'explores all interleavings of evaluations of two objects and of later user changes and checks that the solver of '
+         'every owned model holds the reported regimen at every Run, that nothing is shared and that the result-relevant '
+         'configuration of an owned model never changes (Isolation). TLC-simulated interleavings are replayed on seven pairs '
+         'of real objects (likelihoods, posteriors, hierarchical and filter posteriors, predictive models) against freshly '
+         'built objects, with user mutations, input comparison, forked workers and pints.ParallelEvaluator; the recorded '
+         'solver traces are validated against Trace_MechModel.',
+    note='RefSim stands in for the solver; 2 objects per behaviour; results compared at rtol 1e-9 with a fresh object',
+    technique='TLA+ spec (Purity.tla extending MechModel.tla) model-checked with TLC; spec->code replay of simulated '
+              'interleavings; code->spec trace validation',
+    design='6/C19')
 
 NOT_YET = {
 }
